@@ -12,7 +12,7 @@ MANIFEST = dict(
          "completed; slot_atomic: if every access to a protected value happens under its lock, the projection of any run on that "
          "value is a sequence of whole critical sections, one thread each, in each thread's program order - so a request that "
          "takes a channel slot once is atomic for that channel and C01-C03 transfer to concurrent histories. The lock programs of "
-         "60 request kinds (14 of them real protocol messages through ChannelHandler / RootHandler::do_handle at protocol 4 and 6) (commitment updates, new/setup/forget channel, balance, chaninfo and heartbeat queries, invoice and "
+         "62 request kinds (14 of them real protocol messages through ChannelHandler / RootHandler::do_handle at protocol 4 and 6) (commitment updates, new/setup/forget channel, balance, chaninfo and heartbeat queries, invoice and "
          "keysend approval, allowlist, on-chain check and sign, block add/remove compact and streamed, persist_all) are RECORDED "
          "FROM THE REAL CODE on every run through an instrumented Mutex (hook cfg(vls_verif), vls-core/src/verif_sync.rs) and "
          "written to Gen/LockProgs.v; the rank is SEARCHED by tools/gen_locks.py (topological order of the observed lock-order "
@@ -48,7 +48,7 @@ PINNED = ["C20_ranked", "C20_guarded", "C20_deadlock_free_partial", "C20_complet
           "C20_sections_at_quiescence", "C20_updates_single_section", "C20_listed_inversions_deadlock", "C20_nonvacuous",
           "C20_old_forget_channel_refuted", "C20_old_forget_channel_unrankable", "C20_old_races_deadlock",
           "C20_old_inversions_unrankable", "C20_old_programs_unrankable", "C20_checker_rejects_inversion",
-          "C20_store_access_under_a_lock", "C20_allowlist_written_under_node_state", "C20_nested_under_rejects_late_write",
+          "C20_setup_channel_writes_under_the_map", "C20_store_access_under_a_lock", "C20_allowlist_written_under_node_state", "C20_nested_under_rejects_late_write",
           "C20_counters_rmw", "C20_generated_ids_distinct_partial", "C20_load_store_refuted", "C20_counters_nonvacuous"]
 
 FALLBACK_KNOWN = os.path.join(lib.ROOT, "notes", "fixes", "C20-known-findings.json")
@@ -338,6 +338,9 @@ def run(res):
     late = gen_locks.store_outside_locks(classes, [p for p in progs if p["name"] not in ana["excluded"]])
     late += [x for x in gen_locks.store_outside_locks(classes, [p for p in progs if p["name"].startswith("allowlist_")], outer=("S",))
              if x["request"] not in [y["request"] for y in late]]
+    late += [dict(x, section="the channel map") for x in gen_locks.store_outside_locks(
+                 classes, [p for p in progs if p["name"] in ("setup_channel", "h6_setup_channel")], outer=("M",))
+             if x["request"] not in [y["request"] for y in late]]
     for x in late[:4]:
         res.violation("request %s writes to the store (%s) outside the critical section that computed the value (holding %s): "
                       "two such requests can store their snapshots in the opposite order of their updates"
@@ -435,7 +438,8 @@ def run(res):
                 "for a generated channel id (new_channel_with_random_id; every 4th round: entropy) - lock-free counters that the "
                 "mutex hook cannot steer; a round must give 8 Ok replies, 8 distinct values, 8 new stubs. All must complete, and replies + final "
                 "state (every stored record without versions, every channel's in-memory enforcement state, the node payment ledger, the "
-                "in-memory allowlist, and for allowlist pairs the allowlist of a node restored from the store; "
+                "in-memory allowlist, and - for allowlist pairs and for setup_channel against requests on the channel it sets up - the "
+                "allowlist and every channel's enforcement state of a node restored from the store; "
                 "order-insensitive) and the CONTENT of the replies (heartbeat tip/height/time, balances, chaninfo, points, secrets, "
                 "signatures with their commitment number, channel ids) "
                 "must equal those of P;Q or of Q;P run sequentially.",
